@@ -218,4 +218,56 @@ Theorem C02_search_child_solutions_respect_invariants :
    snd (solve W lvs fmain depth st lv ws first) = Some s -> sol_deep lvs lv s).
 Proof. exact solve_deep. Qed.
 
+(* the search model, lifted to the final counters (first phase; overlapping lines of conditional directives included: the last decision
+   wins): every decided token breaks or continues as the formatting invariant of its position demands - after a line comment a break,
+   before an individual comment a break, an inline comment never broken off *)
+From PasfmtVerif Require Import Model.WrapContexts Model.WrapSearch Model.WrapFormat Proofs.WrapSearchProofs Proofs.WrapSearchDeepProofs Proofs.WrapFitsProofs Proofs.WrapDepthProofs Proofs.WrapEventsProofs Proofs.WrapPhasesProofs Proofs.WrapAliasProofs.
+Theorem C02_search_final_breaks_respect_invariants :
+  forall (W : wsettings) (infos : list tokinfo) (lines : list lline) 
+    (l : list ftoken) (t : nat) (tok : token) (f : fmt),
+  let evs := rev (ss_log (wrap_phase1 W infos lines)) in
+  nth_error (zero_line_starts (apply_plan (plan_of_events evs) l)) t = Some (tok, f) ->
+  decs_for t (plan_of_events evs) <> [] ->
+  exists cd : bool,
+    respects
+      (formatting_invariant
+         match t with
+         | 0%nat => None
+         | S p => option_map ti_ty (nth_error infos p)
+         end (option_map ti_ty (nth_error infos t)) cd) (0 <? f_nl f) = true.
+Proof. exact phase1_final_breaks. Qed.
+
+Theorem C02_invariant_comment_clauses :
+  forall (prev cur : option TokenType) (cd : bool),
+  prev <> None ->
+  (match cur with
+   | Some (TT_Comment CoK_InlineBlock) | Some (TT_Comment CoK_InlineLine) => True
+   | _ => False
+   end -> formatting_invariant prev cur cd = Some DR_MustNotBreak) /\
+  (match cur with
+   | Some (TT_TextLiteral TK_MultiLine) | Some (TT_Comment CoK_IndividualBlock) |
+     Some (TT_Comment CoK_MultilineBlock) | Some (TT_Comment CoK_IndividualLine) => True
+   | _ => False
+   end -> formatting_invariant prev cur cd = Some DR_MustBreak) /\
+  (match prev with
+   | Some (TT_TextLiteral TK_Unterminated) | Some (TT_Comment CoK_MultilineBlock) |
+     Some (TT_Comment CoK_InlineLine) | Some (TT_Comment CoK_IndividualLine) => True
+   | _ => False
+   end ->
+   match cur with
+   | Some (TT_Comment CoK_InlineBlock) | Some (TT_Comment CoK_InlineLine) => False
+   | _ => True
+   end -> formatting_invariant prev cur cd = Some DR_MustBreak).
+Proof. exact formatting_invariant_comment_clauses. Qed.
+
+Theorem C02_search_phase2_events_respect_invariants :
+  forall (W : wsettings) (infos1 infos2 : list tokinfo) (lines : list lline)
+    (reflow : list nat),
+  map ti_ty infos1 = map ti_ty infos2 ->
+  Forall (ev_ok (mk_lviews infos2 lines))
+    (Dlog
+       (wrap_phase2 W infos2 lines reflow
+          (sst_log (Ev_Phase 2) (sst_log (Ev_Phase 1) (wrap_phase1 W infos1 lines))))).
+Proof. exact phase2_events_ok. Qed.
+
 
